@@ -514,7 +514,10 @@ def clip(
             )
 
     if a_min is not None:
-        a = maximum(a_min, a, out=out, constant=constant)
+        # an ndarray target is locked by the op that writes into it: only the
+        # last step may use it
+        first_out = out if (a_max is None or isinstance(out, Tensor)) else None
+        a = maximum(a_min, a, out=first_out, constant=constant)
 
     if a_max is not None:
         a = minimum(a_max, a, out=out, constant=constant)
